@@ -389,6 +389,33 @@ func genC04(g *Gen) {
 		g.Do("bmtree.Decode/roundtrip"+sfx, L(I32(T), L(xs...)), key)
 	}
 
+	// (00) the very first calls of the process for a given T: a range that ends inside the last search
+	//      value (to = the right-most leaf, exclusive; also to = 0 and to = last leaf + 1), then the whole
+	//      range and Decode - a memo of "the complete enumeration" filled by the first call shows here
+	if rel {
+		first := func(T int32) {
+			h := c04Height(T)
+			last := c04Word(h, c04Node{uint64(1)<<uint(h) - 1, h})
+			ap := func(to uint64) string { return L("0", I32(T), U(0), U(to)) }
+			bm := make([]uint64, (int(T)+63)/64)
+			for i := range bm {
+				bm[i] = ^uint64(0)
+			}
+			calls := []string{ap([]uint64{last, last, last - 1, 0, last + 1}[g.R.Intn(5)]), ap(^uint64(0)), L("1", I32(T), U64s(bm)), ap(last + 1)}
+			g.Stat("session-first")
+			g.Do("bmtree.Session", L(L(calls...)), fmt.Sprintf("Y/%s", c04HB(h)))
+		}
+		for T := int32(1); T < 1<<7; T++ {
+			first(T)
+		}
+		for k := 0; k < 40; k++ {
+			h := g.R.Range(7, 12)
+			T := int32(uint32(1)<<uint(h) | uint32(g.R.U64())&(uint32(1)<<uint(h)-1))
+			first(T)
+		}
+		g.Exhaust = append(g.Exhaust, "Session: for every T < 2^7 the first calls of the process on T: AllPaths(T,0,last leaf or +-1 or 0), AllPaths(T,0,max), Decode(T, all ones)")
+	}
+
 	// (0) held variants first thing in the run, over ascending output sizes (capacity boundaries of
 	//     a reused buffer are crossed): two calls, then both results are compared
 	for h := 0; rel && h <= 9; h++ {
